@@ -581,6 +581,20 @@ def main():
                 continue
             run.violation('%s/%s' % (cfg['group'], '+'.join(fam)), '%s %s: obligations %s fail (e.g. %s)' % (cfg['target'], cfg['variant'], fam, sats[0]['name']),
                           {'cfg': cfg, 'failed': [s['name'] for s in sats][:12], 'model': sats[0]['model'], 'info': r.get('info'), 'real_function': real})
+    # float twins on the real solver route (one run per wrapper configuration, sampling -- stated as such): code that tells float
+    # arrays from symbolic ones (dtype tests, typed fast paths) takes another branch there than in the symbolic run
+    twins = []
+    for cfg in cf:
+        if cfg.get('target') in ('analysis.lb', 'Panel.lb') and not cfg.get('G_beyond_K'):
+            real = real_residual_replay(cfg)
+            twins.append(real.get('max_relative_residual'))
+            if real.get('error') or real.get('max_relative_residual', 0) > 1e-8 or real.get('max_on_null_amplitude', 0) > 0:
+                key = '%s/%s/float-twin' % (cfg['group'], cfg['variant'])
+                if not any(v['key'].startswith('%s/' % cfg['group']) for v in run.violations):
+                    run.obligations += 1
+                    run.violation(key, '%s %s: the float twin of the configuration fails on the real function although the symbolic run passed: %s' % (
+                        cfg['target'], cfg['variant'], real), {'cfg': cfg, 'real_function': real, 'decided_by': 'one float run on the real route (no solver verdict for this branch)'})
+    run.extra['float_twins'] = {'runs': len(twins), 'worst_relative_residual': max([t for t in twins if t is not None] or [0])}
     return run.finish()
 
 
